@@ -90,9 +90,10 @@ def ensure_facts(config="default", log=sys.stderr):
             _extract(config, d, log)
             # drop stale fact dirs of this config (keep disk use bounded)
             parent = os.path.dirname(d)
-            for other in os.listdir(parent):
-                if other != sh:
-                    shutil.rmtree(os.path.join(parent, other), ignore_errors=True)
+            others = [o for o in os.listdir(parent) if o != sh and not o.endswith(".tmp")]
+            others.sort(key=lambda o: os.path.getmtime(os.path.join(parent, o)), reverse=True)
+            for other in others[5:]:
+                shutil.rmtree(os.path.join(parent, other), ignore_errors=True)
         finally:
             fcntl.flock(lf, fcntl.LOCK_UN)
     return d, sh
